@@ -368,6 +368,72 @@ pub fn check_helpers(ip: IpAddr, port: u16) -> Vec<Finding> {
     }
 }
 
+/// End to end over loopback multicast with the real services on both sides: a watcher is started,
+/// then a peer advertising `d`; the watcher must come to list exactly that instance (and the peer
+/// exactly the watcher). mode 0: both sync, 1: both tokio, 2: sync peer / tokio watcher.
+pub fn e2e_case(k: usize, d: &Desc, mode: u8) -> Result<Vec<Finding>, String> {
+    use simple_mdns::async_discovery::ServiceDiscovery as ADisc;
+    use simple_mdns::sync_discovery::ServiceDiscovery as SDisc;
+    use std::time::{Duration, Instant};
+    // odd cases use a service name with capital letters (both sides spell it the same way)
+    let svc = if k % 2 == 1 { format!("_E2E{}M{}._TCP.local", k, mode) } else { format!("_e2e{}m{}._tcp.local", k, mode) };
+    let case = json!({"kind": "e2e", "k": k, "desc": d, "mode": mode});
+    let watcher_desc = Desc { name: format!("watcher{}", k), ips: ["10.8.8.8".to_string()].into_iter().collect(), ports: [7000u16 + k as u16].into_iter().collect(), attrs: BTreeMap::new() };
+    let rt = tokio::runtime::Builder::new_multi_thread().worker_threads(2).enable_all().build().map_err(|e| format!("{}", e))?;
+    enum W {
+        S(SDisc),
+        A(ADisc),
+    }
+    let known = |w: &W, rt: &tokio::runtime::Runtime| -> Vec<Desc> {
+        let set = match w {
+            W::S(s) => s.get_known_services(),
+            W::A(a) => rt.block_on(a.get_known_services()),
+        };
+        let mut v: Vec<Desc> = set.iter().map(Desc::of).collect();
+        v.sort();
+        v
+    };
+    let r = guarded(|| -> Result<Vec<(String, String)>, String> {
+        let mut bad = Vec::new();
+        let watcher = if mode == 0 {
+            W::S(SDisc::new(watcher_desc.to_instance(), &svc, 120).map_err(|e| format!("watcher: {:?}", e))?)
+        } else {
+            W::A(rt.block_on(async { ADisc::new(watcher_desc.to_instance(), &svc, 120) }).map_err(|e| format!("watcher: {:?}", e))?)
+        };
+        std::thread::sleep(Duration::from_millis(120));
+        let peer = if mode == 1 {
+            W::A(rt.block_on(async { ADisc::new(d.to_instance(), &svc, 120) }).map_err(|e| format!("peer: {:?}", e))?)
+        } else {
+            W::S(SDisc::new(d.to_instance(), &svc, 120).map_err(|e| format!("peer: {:?}", e))?)
+        };
+        let deadline = Instant::now() + Duration::from_secs(4);
+        let want_w = vec![d.clone()];
+        let want_p = vec![watcher_desc.clone()];
+        let (mut got_w, mut got_p) = (Vec::new(), Vec::new());
+        while Instant::now() < deadline {
+            got_w = known(&watcher, &rt);
+            got_p = known(&peer, &rt);
+            if got_w == want_w && got_p == want_p {
+                break;
+            }
+            std::thread::sleep(Duration::from_millis(40));
+        }
+        if got_w != want_w {
+            bad.push((if got_w.is_empty() { "e2e-peer-not-reported".to_string() } else { "e2e-reported-instance-differs".to_string() }, format!("watcher lists {:?}, the peer advertises {:?}", got_w, want_w)));
+        }
+        if got_p != want_p {
+            bad.push((if got_p.is_empty() { "e2e-watcher-not-reported".to_string() } else { "e2e-reported-instance-differs".to_string() }, format!("peer lists {:?}, the watcher advertises {:?}", got_p, want_p)));
+        }
+        Ok(bad)
+    });
+    rt.shutdown_timeout(Duration::from_millis(100));
+    match r {
+        Err(pn) => Ok(vec![finding(format!("C15|e2e|{}", pn.sig()), format!("{:?}", pn), case)]),
+        Ok(Err(e)) => Err(e),
+        Ok(Ok(bad)) => Ok(bad.into_iter().map(|(t, x)| finding(format!("C15|{}|mode{}", t, mode), x, case.clone())).collect()),
+    }
+}
+
 pub fn run(ctx: &Ctx) {
     ctx.set_rule("6144 instance descriptions (3 names x all subsets of 4 addresses incl. an IPv4-mapped IPv6 address x all subsets of 3 ports x 16 attribute maps incl. absent/empty/non-empty values, a value containing '=', a 255-byte entry) each announced through the real path (into_records, announce-shaped packet, compressed bytes, parse, add_response_to_resources with and without a discovery channel) and read back through the channel and the get_known_services computation; announcement histories of depth <= 3 over an 8-event menu (two peers, identical re-announcement, the discoverer's own instance, records owned by the service name, a foreign service, a look-alike service name); escape/unescape over all strings of length <= 8 over {a,'.','\\'}. non-trivial = description has at least one address, port or attribute / history has a peer event");
     ctx.assume("the announce-shaped packet mirrors ServiceDiscovery::announce: all instance records as answers, address records repeated as additional when an SRV record is present; the receiving store is initialised as ServiceDiscovery::new does (PTR at the service name + own instance records, authoritative)");
@@ -429,7 +495,7 @@ pub fn run(ctx: &Ctx) {
         Event::Foreign(d1.clone()),
         Event::LookAlike(d2.clone()),
     ];
-    let depth = ctx.tier.pick(3usize, 4usize);
+    let depth = ctx.tier.pick(3usize, 5usize);
     let mut hists: Vec<Vec<Event>> = vec![vec![]];
     let mut frontier: Vec<Vec<Event>> = vec![vec![]];
     for _ in 0..depth {
@@ -461,6 +527,50 @@ pub fn run(ctx: &Ctx) {
     });
     ctx.add_states(hists.len() as u64 + descs.len() as u64);
     ctx.space(&format!("announcement histories: every sequence of <= {} events over an 11-event menu (incl. cache-flush announcements and goodbyes before / after plain announcements)", depth), hists.len() as u64, "complete");
+    // end to end with the real services on both sides
+    {
+        let picks: Vec<Desc> = {
+            let mut v = vec![d1.clone(), d2.clone()];
+            if ctx.tier == crate::engine::Tier::Thorough {
+                v.push(d3.clone());
+                v.extend(descs.iter().filter(|d| d.ips.len() == 4 && d.ports.len() == 3 && d.attrs.len() == 3).take(2).cloned());
+                v.extend(descs.iter().filter(|d| d.ips.len() == 1 && d.ports.is_empty() && d.attrs.len() == 1).take(2).cloned());
+            }
+            v
+        };
+        let mut t = Tally::default();
+        let mut ran = 0u64;
+        let mut why_not: Option<String> = None;
+        // the environment is probed without the library: a raw socket joined to the mDNS group must see a datagram sent to it
+        let env_ok = crate::engine::loopback_multicast_works();
+        if !env_ok {
+            why_not = Some("a raw socket joined to 224.0.0.251:5353 does not receive a datagram sent to the group from this host".to_string());
+        }
+        'outer: for (k, d) in picks.iter().enumerate() {
+            if !env_ok {
+                break;
+            }
+            for mode in 0..3u8 {
+                match e2e_case(k, d, mode) {
+                    Ok(f) => {
+                        ran += 1;
+                        t.evals += 1;
+                        t.nontrivial += 1;
+                        t.transitions += 2;
+                        t.outcome(if f.is_empty() { "e2e-faithful" } else { "e2e-unfaithful" });
+                        ctx.violations(f);
+                    }
+                    Err(e) => {
+                        why_not = Some(format!("services could not be started: {}", e));
+                        break 'outer;
+                    }
+                }
+            }
+        }
+        ctx.merge(t);
+        ctx.set_extra("e2e_stage", json!({"ran": ran > 0, "cases": ran, "reason": why_not}));
+        ctx.space("end to end over loopback multicast: a real watcher and a real peer (sync/sync, tokio/tokio, sync peer with tokio watcher) per instance description; each side must come to list exactly the other's instance", ran, "complete for the listed descriptions");
+    }
     // escape / unescape
     let mut strs: Vec<String> = Vec::new();
     let mut b = Vec::new();
@@ -537,6 +647,10 @@ pub fn replay(case: &Value) -> Vec<Finding> {
         "history" => match serde_json::from_value::<Vec<Event>>(case["events"].clone()) {
             Ok(ev) => check_history(&ev),
             Err(e) => vec![finding("C15|replay-unreadable", format!("{}", e), case.clone())],
+        },
+        "e2e" => match serde_json::from_value::<Desc>(case["desc"].clone()) {
+            Ok(d) => e2e_case(case["k"].as_u64().unwrap_or(0) as usize + 500, &d, case["mode"].as_u64().unwrap_or(0) as u8).unwrap_or_default(),
+            Err(_) => vec![],
         },
         "escape" => check_escape(case["s"].as_str().unwrap_or("")),
         "helpers" => check_helpers(case["ip"].as_str().unwrap_or("0.0.0.0").parse().unwrap_or(IpAddr::V4(std::net::Ipv4Addr::UNSPECIFIED)), case["port"].as_u64().unwrap_or(0) as u16),
